@@ -4,12 +4,15 @@ import (
 	"encoding/json"
 	"fmt"
 	"go/ast"
+	"go/parser"
+	"go/token"
 	"reflect"
 	"sort"
 	"strings"
 	"time"
 
 	"github.com/dave/dst"
+	"github.com/dave/dst/decorator"
 )
 
 // c13HandBuilt: nodes that no parser produced. For every node type, every combination of present and
@@ -283,4 +286,81 @@ func (f walkFunc) Visit(n dst.Node) dst.Visitor {
 		return f
 	}
 	return nil
+}
+
+// c13Package: Walk rooted at a package. The package is decorated as a whole; its files come from
+// generated code, so //line directives in front of the package clause give two of them the same
+// adjusted file name. Every file of the source package is a file of the decorated package under the
+// same key, and Walk visits each file's nodes exactly once (as go/ast's Walk visits the originals).
+func c13Package(c *Ctx) {
+	cases := map[string]map[string]string{
+		"plain": {"a.go": "package p\n\nvar A = 1\n", "b.go": "package p\n\nfunc B() int { return A }\n", "c.go": "package p\n\ntype C struct{ x int }\n"},
+		"same-line-directive": {"expr.go": "//line grammar.y:2\npackage p\n\nvar A = 1\n", "stmt.go": "//line grammar.y:2\npackage p\n\nfunc B() int { return A }\n",
+			"plain.go": "package p\n\ntype C struct{ x int }\n"},
+		"directive-names-sibling": {"a.go": "//line b.go:1\npackage p\n\nvar A = 1\n", "b.go": "package p\n\nfunc B() int { return A }\n"},
+	}
+	for name, srcs := range cases {
+		key := "package-walk|" + name
+		c.Eval(key, name != "plain")
+		fset := token.NewFileSet()
+		apkg := &ast.Package{Name: "p", Files: map[string]*ast.File{}}
+		for fn, src := range srcs {
+			af, err := parser.ParseFile(fset, fn, src, parser.ParseComments)
+			if err != nil {
+				c.Infra("c13Package: " + err.Error())
+				return
+			}
+			apkg.Files[fn] = af
+		}
+		d := decorator.NewDecorator(fset)
+		var dn dst.Node
+		var err error
+		if msg := guard(func() { dn, err = d.DecorateNode(apkg) }); msg != "" || err != nil {
+			c.Fail(Finding{Sig: "walk-panics", Input: key, What: fmt.Sprintf("package decoration: %s %v", msg, err), Replay: obj{"kind": "none"}})
+			continue
+		}
+		dpkg := dn.(*dst.Package)
+		var missing []string
+		for fn := range apkg.Files {
+			if dpkg.Files[fn] == nil {
+				missing = append(missing, fn)
+			}
+		}
+		sort.Strings(missing)
+		if len(missing) > 0 || len(dpkg.Files) != len(apkg.Files) {
+			c.Fail(Finding{Sig: "package-files-lost", Input: key, What: fmt.Sprintf("the source package has %d files, the decorated package %d; not under their key: %v", len(apkg.Files), len(dpkg.Files), missing), Replay: obj{"kind": "none"}})
+			continue
+		}
+		// every non-comment node of the originals has a counterpart that Walk visits exactly once
+		visits := map[dst.Node]int{}
+		dst.Inspect(dpkg, func(n dst.Node) bool {
+			if n != nil {
+				visits[n]++
+			}
+			return true
+		})
+		bad := ""
+		nAst := 0
+		ast.Inspect(apkg, func(n ast.Node) bool {
+			switch n.(type) {
+			case nil, *ast.Comment, *ast.CommentGroup:
+				return false
+			}
+			nAst++
+			if dn := d.Dst.Nodes[n]; dn == nil {
+				if bad == "" {
+					bad = fmt.Sprintf("%T has no dst counterpart", n)
+				}
+			} else if visits[dn] != 1 && bad == "" {
+				bad = fmt.Sprintf("the counterpart of a %T is visited %d times", n, visits[dn])
+			}
+			return true
+		})
+		if bad == "" && nAst != len(visits) {
+			bad = fmt.Sprintf("go/ast visits %d nodes, dst.Inspect %d", nAst, len(visits))
+		}
+		if bad != "" {
+			c.Fail(Finding{Sig: "package-walk-differs", Input: key, What: bad, Replay: obj{"kind": "none"}})
+		}
+	}
 }
